@@ -419,6 +419,14 @@ def m_iter_skip(ex, st, callee, args, dest_ty):
     yield st, Opaque("SliceIter", it.e, (base, pos + n))
 
 
+def m_array_into_iter(ex, st, callee, args, dest_ty):
+    """<[T; N] as IntoIterator>::into_iter: an owning iterator over the array's elements"""
+    a = args[0]
+    items = tuple(a.fields) if isinstance(a, Adt) else tuple(a.items)
+    cell = ex.new_cell(st, VecV(z3.IntVal(len(items)), items, "array"), "array")
+    yield st, Opaque("SliceIter", "owned", (Ref(cell), 0))
+
+
 def m_iter_enumerate(ex, st, callee, args, dest_ty):
     yield st, Opaque("Enumerate", info=(args[0], 0))
 
@@ -649,6 +657,8 @@ VALUE_MODELS = [
     (R(r"^<std::slice::Iter(Mut)?<.*> as Iterator>::zip::<.*>$"), m_iter_zip),
     (R(r"^<(std::slice::Iter(Mut)?<.*>|Zip<.*>|Enumerate<.*>) as Iterator>::(all|any)::<.*>$"), m_iter_all_any),
     (R(r"^<std::slice::Iter(Mut)?<.*> as Iterator>::enumerate$"), m_iter_enumerate),
+    (R(r"^<\[.*; \d+\] as IntoIterator>::into_iter$"), m_array_into_iter),
+    (R(r"^<std::array::IntoIter<.*> as Iterator>::next$"), m_iter_next),
     (R(r"^<std::slice::Iter(Mut)?<.*> as Iterator>::skip$"), m_iter_skip),
     (R(r"^<(std::iter::)?Skip<.*> as IntoIterator>::into_iter$"), m_into_iter_id),
     (R(r"^<(std::iter::)?Skip<.*> as Iterator>::next$"), m_iter_next),
